@@ -126,7 +126,7 @@ class Scheduler:
         self.main_gate = _thread.allocate_lock()
         self.main_gate.acquire()
         self.stats = {"lock_contention": 0, "preemptions": 0, "forced_switches": 0}
-        self._replay = [list(x) for x in self.strategy.get("switches", [])]
+        self._replay = [(list(x) + ["p"])[:3] for x in self.strategy.get("switches", [])]
         self._pct_points = []
         self._file_cache = {}
 
@@ -177,7 +177,7 @@ class Scheduler:
             return
         nxt = self._choose_forced(r)
         self.stats["forced_switches"] += 1
-        self.switches.append([self.steps, nxt])
+        self.switches.append([self.steps, nxt, "f"])
         self.ts[nxt].gate.release()
 
     def _abort_all(self):
@@ -228,7 +228,7 @@ class Scheduler:
         to = self._decide(me)
         if to is not None and to != me:
             self.stats["preemptions"] += 1
-            self.switches.append([self.steps, to])
+            self.switches.append([self.steps, to, "p"])
             self._switch(me, to)
 
     def _abort_all_from(self, me):
@@ -244,8 +244,8 @@ class Scheduler:
                     return r[self.rng.randrange(len(r))]
             return None
         if k == "replay":
-            if self._replay and self._replay[0][0] <= self.steps:
-                _, to = self._replay.pop(0)
+            if self._replay and self._replay[0][0] <= self.steps and self._replay[0][2] == "p":
+                to = self._replay.pop(0)[1]
                 if to in self.ts and not self.ts[to].done and self.ts[to].blocked is None:
                     return to
             return None
@@ -267,8 +267,8 @@ class Scheduler:
 
     def _choose_forced(self, r):
         if self.kind == "replay":
-            if self._replay and self._replay[0][0] <= self.steps:
-                _, to = self._replay.pop(0)
+            if self._replay and self._replay[0][0] <= self.steps and self._replay[0][2] == "f":
+                to = self._replay.pop(0)[1]
                 if to in r:
                     return to
             return r[0]
@@ -295,7 +295,7 @@ class Scheduler:
             raise SimAbort()
         nxt = self._choose_forced(r)
         self.stats["forced_switches"] += 1
-        self.switches.append([self.steps, nxt])
+        self.switches.append([self.steps, nxt, "f"])
         self._switch(me, nxt)
 
     def unblock(self, lock):
@@ -320,7 +320,7 @@ class Scheduler:
                 t = self.ts[n]
                 t.thread = threading.Thread(target=self._body, args=(t,), name=n, daemon=True)
                 t.thread.start()
-            if self.kind == "replay" and self._replay and self._replay[0][0] <= 0:
+            if self.kind == "replay" and self._replay and self._replay[0][2] == "s":
                 first = self._replay.pop(0)[1]
             elif self.kind == "pct":
                 first = max(self.order, key=lambda n: self.ts[n].prio)
@@ -328,7 +328,7 @@ class Scheduler:
                 first = self.order[self.rng.randrange(len(self.order))]
             else:
                 first = self.order[self.strategy.get("first", 0) % len(self.order)]
-            self.switches.append([0, first])
+            self.switches.append([0, first, "s"])
             self.ts[first].gate.release()
             ok = self.main_gate.acquire(True, wall_timeout)
             if not ok:
